@@ -359,6 +359,7 @@ def generate_cli(ctx):
             def thunk(run, dry=dry, plot=plot):
                 config, n_time, n_tow, tower = make_world(run)
                 config.parallel.num_threads = sym.fresh_int("cfg_num_threads")
+                config.domain = values.Rec("domain", nx=sym.fresh_int("nx"), ny=sym.fresh_int("ny"), nz=sym.fresh_int("nz"))
                 log, plots, inits = [], [], []
                 path = Op("input.config_path", {})
                 cfgmod = values.Rec("bldfm.config", NUM_THREADS=sym.fresh_int("threads0"), MAX_WORKERS=sym.fresh_int("workers0"),
